@@ -24,6 +24,9 @@ func C03() int {
 	for i := 0; i < pickN(c, 500, 5000); i++ {
 		items = append(items, rawItem("other", g.OtherLine(), i))
 	}
+	for i, l := range g.CharsetLines() {
+		items = append(items, rawItem("charset", l, i))
+	}
 	// the explicit small product {key} × {value kind} × {zone}
 	pv := gen.ProbeValues()
 	nprod := 0
